@@ -119,6 +119,15 @@ def analyse(ctx, jobs, res, pid, do_predict=True, do_update=True):
         if r.get("results_stable") is False:
             ctx.violation("a state / covariance returned by the filter changed when the filter was used again (results share storage)",
                           {"definition": d, "points": job["points"][:3]}, key="filter-result-unstable")
+        if do_update and "error" not in r and r.get("Q"):
+            # the per-sensor noise matrix the filter holds is exactly the configured diagonal, by reading name
+            for key, rd in d["sensors"].items():
+                Rn = sorted(rd)
+                want = [[(float(d["sensor_noise"][key][a]) if a == b else 0.0) for b in Rn] for a in Rn]
+                if r["Q"].get(key) != want:
+                    ctx.violation(f"sensor {key!r}: the filter's noise matrix is {r['Q'].get(key)}, configured per reading (in name order {Rn}): {d['sensor_noise'][key]}",
+                                  {"definition": d, "sensor": key, "observed": r["Q"].get(key), "expected": want}, key="sensor-noise-matrix")
+                    break
         if "error" in r:
             ctx.violation(f"python.compile_ekf refused / crashed on a valid definition: {r['kind']}",
                           {"definition": d, "error": r["error"]}, key=f"compile-raises:{r['kind']}")
